@@ -206,6 +206,9 @@ def gen_scenario(rnd, tier):
                 redefs.append("\n".join(ml.rfunc(nf, rnd)))
         redefs.append("a = 77; s = \"redef\"; t = tab(2, 9);")
         sc["kind"] = "generated-" + focus
+    # type-constrained variables are part of what a clone inherits (value, type and constraint)
+    sc["init"] += '\n$n = 10; $s = "fixed"; $t = tab(2, 1);\n'
+    redefs = list(redefs) + ['$n = "ten";', '$s = 5;', '$n = 11; $s = "again"; $t.concat(3);', '$t = "not a table";']
     np = len(sc["progs"])
     nth = rnd.choice([2, 2, 3, 4, 4, 6, 8])
     same = rnd.random() < 0.5
@@ -257,6 +260,11 @@ class Sh:
             if tw is None: continue
             tb = tw.bodies.get(-1, {"res": [], "out": "-", "dump": None})
             who = "original" if key == -1 else "clone %d" % key
+            # texts parsed and run in this body after cloning (redefinitions, assignments to constrained variables) are accepted or refused as in the twin
+            mine = [x.split(" ", 1)[1] for x in run.pre if x.split(" ", 1)[0] == str(key)]
+            theirs = [x.split(" ", 1)[1] for x in tw.pre if x.split(" ", 1)[0] == "-1"]
+            if mine != theirs:
+                bad.append(("pre", "%s: texts parsed after cloning answered %r, the original alone answers %r" % (who, [m[:60] for m in mine], [t[:60] for t in theirs]))); continue
             if b["res"] != tb["res"]:
                 bad.append(("results", "%s: results %r, the original alone gives %r" % (who, [x[:60] for x in b["res"]], [x[:60] for x in tb["res"]])))
             elif b["out"] != tb["out"]:
